@@ -149,7 +149,7 @@ func (f *FilterSpec) Build(ids []ecs.ID) ecs.Filter {
 }
 
 // genFilter draws a filter expression over the registered live types.
-func genFilter(c *cursor, reg []int, depth int, allowRel bool, pickTarget func() ecs.Entity) *FilterSpec {
+func genFilter(c *cursor, reg []int, depth int, relPct int, pickTarget func() ecs.Entity) *FilterSpec {
 	sub := func(max int) []int {
 		if len(reg) == 0 {
 			return nil
@@ -167,20 +167,20 @@ func genFilter(c *cursor, reg []int, depth int, allowRel bool, pickTarget func()
 		return out
 	}
 	k := c.n(100)
-	if allowRel && k < 22 {
-		inner := genFilter(c, reg, depth, false, nil)
+	if relPct > 0 && k < relPct {
+		inner := genFilter(c, reg, depth, 0, nil)
 		return &FilterSpec{Kind: "relation", L: inner, Target: pickTarget()}
 	}
-	if depth > 0 && k < 45 {
+	if depth > 0 && c.n(100) < 30 {
 		switch c.n(4) {
 		case 0:
-			return &FilterSpec{Kind: "and", L: genFilter(c, reg, depth-1, false, nil), R: genFilter(c, reg, depth-1, false, nil)}
+			return &FilterSpec{Kind: "and", L: genFilter(c, reg, depth-1, 0, nil), R: genFilter(c, reg, depth-1, 0, nil)}
 		case 1:
-			return &FilterSpec{Kind: "or", L: genFilter(c, reg, depth-1, false, nil), R: genFilter(c, reg, depth-1, false, nil)}
+			return &FilterSpec{Kind: "or", L: genFilter(c, reg, depth-1, 0, nil), R: genFilter(c, reg, depth-1, 0, nil)}
 		case 2:
-			return &FilterSpec{Kind: "xor", L: genFilter(c, reg, depth-1, false, nil), R: genFilter(c, reg, depth-1, false, nil)}
+			return &FilterSpec{Kind: "xor", L: genFilter(c, reg, depth-1, 0, nil), R: genFilter(c, reg, depth-1, 0, nil)}
 		default:
-			return &FilterSpec{Kind: "not", L: genFilter(c, reg, depth-1, false, nil)}
+			return &FilterSpec{Kind: "not", L: genFilter(c, reg, depth-1, 0, nil)}
 		}
 	}
 	switch c.n(7) {
